@@ -22,7 +22,10 @@
 //
 // Line protocol: one scenario per stdin line
 //
-//	e2e run id=<s> seed=<n> up=<bytes> down=<bytes> max=<n> proxies=<n> stall=<ms> hard=<ms> [second=<bytes>] faults=<rule;rule;...|->
+//	e2e run id=<s> seed=<n> up=<bytes> down=<bytes> max=<n> proxies=<n> stall=<ms> hard=<ms> [second=<bytes>] [srvclose=1] faults=<rule;rule;...|->
+//
+// srvclose=1: the application behind the bridge reads the whole upstream (a request), fires the `a:` rules,
+// writes its downstream bytes (an answer) and closes its end at once; the client must read every byte, then EOF.
 //
 // all scenarios run concurrently; one result line per scenario, in input order.
 package main
@@ -214,16 +217,17 @@ func proxyMain() {
 // ---------------------------------------------------------------- scenario
 
 type spec struct {
-	id      string
-	seed    int64
-	up      int
-	down    int
-	max     int
-	proxies int
-	stall   time.Duration // no progress and no disturbance for this long = stalled
-	hard    time.Duration // absolute limit
-	second  int           // >= 0: a second Dial on the same Transport with streams of this size
-	faults  []*rule
+	id       string
+	seed     int64
+	up       int
+	down     int
+	max      int
+	proxies  int
+	stall    time.Duration // no progress and no disturbance for this long = stalled
+	hard     time.Duration // absolute limit
+	second   int           // >= 0: a second Dial on the same Transport with streams of this size
+	srvclose bool          // answer-then-close: the bridge-side application closes right after writing
+	faults   []*rule
 }
 
 // rule: <sel>:<kind>=<a>[,<b>]
@@ -231,6 +235,7 @@ type spec struct {
 //	sel c<i> = the i-th relay connection that carried client data (carrier index)
 //	sel b<j> = the j-th answer the broker gave the client
 //	sel t    = at time <a> ms after the client dialled
+//	sel a    = when the bridge-side application has read the whole upstream and is about to answer (srvclose=1)
 type rule struct {
 	text  string
 	sel   byte
@@ -272,6 +277,8 @@ func parseSpec(line string) (*spec, error) {
 			s.hard = time.Duration(n) * time.Millisecond
 		case "second":
 			s.second = int(n)
+		case "srvclose":
+			s.srvclose = n != 0
 		case "faults":
 			if v == "-" {
 				break
@@ -297,7 +304,7 @@ func parseRule(t string) (*rule, error) {
 		return nil, fmt.Errorf("bad rule %q", t)
 	}
 	r.sel = t[0]
-	if r.sel != 't' {
+	if r.sel != 't' && r.sel != 'a' {
 		n, err := strconv.Atoi(t[1:i])
 		if err != nil {
 			return nil, fmt.Errorf("bad rule %q", t)
@@ -315,7 +322,7 @@ func parseRule(t string) (*rule, error) {
 	}
 	switch r.kind {
 	case "cutu", "cutd", "rstu", "rstd", "freeze", "stop", "kill", "term", "pause", "blackout", "refuse", "cutall",
-		"lose", "delay", "killall", "extinct":
+		"lose", "delay", "killall", "extinct", "blackhole", "hang", "none":
 	default:
 		return nil, fmt.Errorf("bad rule kind %q", t)
 	}
@@ -737,6 +744,12 @@ func (s *scen) procAction(r *rule, rc *rconn) {
 		s.note(r, fmt.Sprintf("/proxy%d", idx))
 		s.signalProxy(idx, sig)
 		s.startProxy()
+	case "hang":
+		// the proxy process freezes for good (SIGSTOP, never continued): nothing is closed, nothing moves any
+		// more; another proxy is on offer
+		s.note(r, fmt.Sprintf("/proxy%d", idx))
+		s.signalProxy(idx, syscall.SIGSTOP)
+		s.startProxy()
 	case "pause":
 		s.note(r, fmt.Sprintf("/proxy%d", idx))
 		s.signalProxy(idx, syscall.SIGSTOP)
@@ -837,6 +850,7 @@ type rconn struct {
 	up, down rdir
 	carrier  int
 	frozen   time.Time
+	hole     bool // black hole: both directions are read and thrown away, nothing is closed
 	closed   bool
 	cutBy    string
 }
@@ -978,9 +992,13 @@ func (r *relay) forward(rc *rconn, up bool, dst net.Conn, p []byte) bool {
 			rc.mu.Lock()
 			fz := rc.frozen
 			closed := rc.closed
+			hole := rc.hole
 			rc.mu.Unlock()
 			if closed {
 				return false
+			}
+			if hole {
+				return true
 			}
 			if w := time.Until(fz); w > 0 {
 				if w > 100*time.Millisecond {
@@ -1008,6 +1026,28 @@ func (r *relay) forward(rc *rconn, up bool, dst net.Conn, p []byte) bool {
 			r.carriers = append(r.carriers, rc)
 			r.mu.Unlock()
 			r.s.logp("relay conn %d (proxy %d) is carrier %d", rc.id, rc.proxyIdx, rc.carrier)
+		}
+		// silent failures, applied BEFORE the bytes that reach the offset are passed on (offset 0: the carrier
+		// never moves a byte in either direction): blackhole = this connection swallows everything from now on,
+		// hang = the same and the proxy process is frozen for good
+		if rc.carrier >= 0 {
+			rc.mu.Lock()
+			tot := rc.up.payload + rc.down.payload
+			rc.mu.Unlock()
+			for _, ru := range r.rulesFor(rc.carrier) {
+				if (ru.kind == "blackhole" || ru.kind == "hang") && tot >= ru.a && atomic.CompareAndSwapInt32(&ru.fired, 0, 1) {
+					r.blackhole(ru, rc)
+					if ru.kind == "hang" {
+						go r.s.procAction(ru, rc)
+					}
+				}
+			}
+			rc.mu.Lock()
+			hole := rc.hole
+			rc.mu.Unlock()
+			if hole {
+				return true
+			}
 		}
 		allow := int64(len(p))
 		var cut *rule
@@ -1103,6 +1143,66 @@ func (r *relay) freeze(ru *rule, rc *rconn, d time.Duration) {
 		time.Sleep(d)
 		r.s.endDisturb()
 	}()
+}
+
+// blackhole turns rc into a silent carrier: from now on whatever either side sends is read and dropped;
+// both TCP connections stay open. An instantaneous disturbance, like a cut.
+func (r *relay) blackhole(ru *rule, rc *rconn) {
+	r.s.beginDisturb()
+	if ru.kind != "hang" {
+		r.s.note(ru, fmt.Sprintf("/conn%d/proxy%d", rc.id, rc.proxyIdx))
+	}
+	rc.mu.Lock()
+	rc.hole = true
+	rc.mu.Unlock()
+	r.s.endDisturb()
+}
+
+// answerRules fires the `a:` rules: the bridge-side application has read the request and is about to write its
+// answer and close. Synchronous: when it returns the fault is in place.
+func (s *scen) answerRules() {
+	for _, ru := range s.sp.faults {
+		if ru.sel != 'a' || !atomic.CompareAndSwapInt32(&ru.fired, 0, 1) {
+			continue
+		}
+		rc := s.relay.currentCarrier()
+		if ru.kind == "none" {
+			s.note(ru, "")
+			continue
+		}
+		if rc == nil {
+			s.note(ru, "/no-carrier")
+			continue
+		}
+		switch ru.kind {
+		case "blackhole":
+			s.relay.blackhole(ru, rc)
+		case "hang":
+			s.relay.blackhole(ru, rc)
+			s.procAction(ru, rc)
+		case "kill", "term", "stop":
+			s.procAction(ru, rc)
+			if ru.kind != "stop" {
+				// until the process is gone (its sockets closed)
+				for i := 0; i < 100; i++ {
+					s.mu.Lock()
+					dead := rc.proxyIdx >= 0 && rc.proxyIdx < len(s.procs) && s.procs[rc.proxyIdx].dead
+					s.mu.Unlock()
+					if dead {
+						break
+					}
+					time.Sleep(30 * time.Millisecond)
+				}
+			}
+		case "cutu", "cutd", "rstu", "rstd":
+			s.beginDisturb()
+			s.note(ru, fmt.Sprintf("/conn%d/proxy%d", rc.id, rc.proxyIdx))
+			rc.shut(strings.HasPrefix(ru.kind, "rst"), ru.text)
+			s.endDisturb()
+		case "freeze":
+			s.relay.freeze(ru, rc, time.Duration(ru.b)*time.Millisecond)
+		}
+	}
 }
 
 func (r *relay) refuse(ru *rule, d time.Duration) {
@@ -1371,6 +1471,8 @@ type dirResult struct {
 	rerr     string
 	wdone    bool
 	mismatch int64
+	stopAt   bool // the reader stops once it has read len(want) bytes (it will close its own end next)
+	eofOK    bool // the other end closes after writing: EOF is the expected end of this stream
 }
 
 // pair is one client connection (Transport.Dial) with its two streams and the server
@@ -1406,6 +1508,10 @@ func newPair(tag string, seed int64, up, down int) *pair {
 func newApp(s *scen) *app {
 	a := &app{s: s, acc: make(chan net.Conn, 16)}
 	a.pairs = append(a.pairs, newPair("", s.sp.seed, s.sp.up, s.sp.down))
+	if s.sp.srvclose {
+		a.pairs[0].up.stopAt = true
+		a.pairs[0].down.eofOK = true
+	}
 	if s.sp.second >= 0 {
 		a.pairs = append(a.pairs, newPair("2", s.sp.seed+1000003, s.sp.second, s.sp.second))
 	}
@@ -1483,6 +1589,9 @@ func (a *app) reader(c net.Conn, d *dirResult, rng *rand.Rand, done chan struct{
 	defer close(done)
 	capN := len(d.want) + 65536
 	buf := make([]byte, 70000)
+	if d.stopAt && len(d.want) == 0 {
+		return
+	}
 	for {
 		n := 1 + rng.Intn(len(buf))
 		k, err := c.Read(buf[:n])
@@ -1504,14 +1613,18 @@ func (a *app) reader(c net.Conn, d *dirResult, rng *rand.Rand, done chan struct{
 					}
 				}
 			}
+			full := d.stopAt && len(d.got) >= len(d.want)
 			a.mu.Unlock()
+			if full && err == nil {
+				return
+			}
 		}
 		if err != nil {
 			a.mu.Lock()
 			if err == io.EOF {
 				d.eof = true
 			}
-			if atomic.LoadInt32(&a.closing) == 0 {
+			if atomic.LoadInt32(&a.closing) == 0 && !(err == io.EOF && d.eofOK) {
 				d.rerr = err.Error()
 			}
 			a.mu.Unlock()
@@ -1537,6 +1650,15 @@ func (a *app) startPair(p *pair, cc net.Conn, seed int64) {
 		p.sc = sc
 		a.mu.Unlock()
 		close(p.srvUp)
+		if a.s.sp.srvclose {
+			// answer-then-close: read the request, (fault), write the answer, close at once
+			a.reader(sc, p.up, rand.New(rand.NewSource(seed*7+4)), p.upDone)
+			a.s.answerRules()
+			a.writer(sc, p.down, rand.New(rand.NewSource(seed*7+3)))
+			sc.Close()
+			a.s.logp("server wrote its answer (%d bytes) and closed", len(p.down.want))
+			return
+		}
 		go a.writer(sc, p.down, rand.New(rand.NewSource(seed*7+3)))
 		a.reader(sc, p.up, rand.New(rand.NewSource(seed*7+4)), p.upDone)
 	}()
@@ -1555,6 +1677,19 @@ func (a *app) complete() bool {
 		}
 	}
 	return true
+}
+
+// truncated: the other end wrote everything and closed, and this end read EOF short of it.
+func (a *app) truncated() bool {
+	a.mu.Lock()
+	defer a.mu.Unlock()
+	for _, p := range a.pairs {
+		d := p.down
+		if d.eofOK && d.eof && d.wdone && int64(len(d.got)) < d.written {
+			return true
+		}
+	}
+	return false
 }
 
 func (a *app) broken() bool {
@@ -1612,6 +1747,15 @@ func (a *app) run(cc net.Conn) string {
 		switch {
 		case a.complete():
 			status = "done"
+			if sp.srvclose {
+				// the bridge side has closed: the client reads EOF next (reported, see down.eof)
+				select {
+				case <-a.pairs[0].downDone:
+				case <-time.After(5 * time.Second):
+				}
+			}
+		case a.truncated():
+			status = "truncated"
 		case a.broken():
 			// give the other direction a moment so that the report is complete
 			time.Sleep(300 * time.Millisecond)
@@ -1693,9 +1837,9 @@ func (a *app) run(cc net.Conn) string {
 			hw := sha256.Sum256(d.want[:d.written])
 			hr := sha256.Sum256(d.got)
 			cls, at := classify(d)
-			fmt.Fprintf(&b, " %s.size=%d %s.w=%d %s.r=%d %s.extra=%d %s.wsha=%s %s.rsha=%s %s.mis=%d %s.cls=%s %s.at=%s %s.werr=%s %s.rerr=%s",
+			fmt.Fprintf(&b, " %s.size=%d %s.w=%d %s.r=%d %s.extra=%d %s.wsha=%s %s.rsha=%s %s.mis=%d %s.cls=%s %s.at=%s %s.werr=%s %s.rerr=%s %s.eof=%v",
 				x.n, len(d.want), x.n, d.written, x.n, len(d.got), x.n, d.extra, x.n, hex.EncodeToString(hw[:8]), x.n, hex.EncodeToString(hr[:8]),
-				x.n, d.mismatch, x.n, cls, x.n, at, x.n, q(d.werr), x.n, q(d.rerr))
+				x.n, d.mismatch, x.n, cls, x.n, at, x.n, q(d.werr), x.n, q(d.rerr), x.n, d.eof)
 		}
 	}
 	s.mu.Lock()
